@@ -734,6 +734,10 @@ class Gen:
     saved, self.pf = self.pf, dict(self.pf, func_calls=0.0)
     e = self.expr_of(ty, bound, 2)
     self.pf = saved
+    if e[0] == 'var':
+      # not the identity: `c == F(c)` would become `c == c` after injection, which the compiler drops even when c
+      # is null (the reference semantics compares with SQL equality) - outside what the properties state
+      e = ('bin', '+', e, ('int', 0)) if ty == 'int' else ('bin', '++', e, ('str', 'a'))
     head = [(i, ('e', ('var', n))) for i, n in enumerate(names)] + [('logica_value', ('e', e))]
     d = {'name': name, 'kind': 'func', 'rules': [{'head': head, 'distinct': False, 'body': None}],
          'types': dict(list(enumerate(argtypes)) + [('logica_value', ty)]), 'argtypes': argtypes,
